@@ -95,8 +95,12 @@ theorem paint_rel (c : DrawCfg) (s : Scr) (x y : Int) : ScrRel s (s.paint c x y)
 theorem drawCellPlain_rel (c : DrawCfg) (s : Scr) (x y : Int) : ScrRel s (s.drawCellPlain c x y).1 := by
   cases hd : s.cells.dirty x y
   · rw [Scr.drawCellPlain_clean c s x y hd]; exact ScrRel.refl s
-  · rw [Scr.drawCellPlain_dirty c s x y hd]
-    exact ScrRel.setDirty s _ x y false rfl rfl rfl rfl rfl rfl ⟨rfl, rfl, rfl, rfl⟩
+  · by_cases hgo : s.cy ≠ y ∨ s.cx ≠ x
+    · simp only [Scr.drawCellPlain, hd, not_true_eq_false, if_false, hgo, if_true]
+      exact (ScrRel.of_eq s { s with cx := x, cy := y } rfl rfl rfl rfl rfl rfl ⟨rfl, rfl, rfl, rfl⟩).trans
+        (paint_rel c { s with cx := x, cy := y } x y)
+    · simp only [Scr.drawCellPlain, hd, not_true_eq_false, if_false, hgo]
+      exact paint_rel c s x y
 
 theorem drawCell_rel (c : DrawCfg) (s : Scr) (x y : Int) : ScrRel s (s.drawCell c x y).1 := by
   unfold Scr.drawCell
@@ -106,11 +110,12 @@ theorem drawCell_rel (c : DrawCfg) (s : Scr) (x y : Int) : ScrRel s (s.drawCell 
     · -- bottom-right corner trick: paint, mark the neighbour dirty, repaint it
       simp only
       have h1 := paint_rel c s x y
+      generalize Scr.cornerPx (s.paint c x y).1 x y = px
       have h2 : ScrRel (s.paint c x y).1
-          { (s.paint c x y).1 with cy := y, cx := x - 1, cells := (s.paint c x y).1.cells.setDirty (x - 1) y true } :=
-        ScrRel.setDirty _ _ (x - 1) y true rfl rfl rfl rfl rfl rfl ⟨rfl, rfl, rfl, rfl⟩
+          { (s.paint c x y).1 with cy := y, cx := x - 1, cells := (s.paint c x y).1.cells.setDirty px y true } :=
+        ScrRel.setDirty _ _ px y true rfl rfl rfl rfl rfl rfl ⟨rfl, rfl, rfl, rfl⟩
       have h3 := drawCellPlain_rel c
-        { (s.paint c x y).1 with cy := y, cx := x - 1, cells := (s.paint c x y).1.cells.setDirty (x - 1) y true } (x - 1) y
+        { (s.paint c x y).1 with cy := y, cx := x - 1, cells := (s.paint c x y).1.cells.setDirty px y true } px y
       refine ((h1.trans h2).trans h3).trans ?_
       exact ScrRel.of_eq _ _ rfl rfl rfl rfl rfl rfl ⟨rfl, rfl, rfl, rfl⟩
     · exact drawCellPlain_rel c s x y
